@@ -1132,6 +1132,14 @@ def run(ck):
         t_ph[0] = time.time()
     ck.notes["phase_seconds"] = phases
     ck.build_proofs()
+    try:
+        from translate import regen
+        st = regen.status().get("tdata_status", {})
+        ck.notes["tdata_status"] = ("regenerated from the current source: " + ",".join(st.get("files", []))) \
+            if st.get("ok") else ("not-translatable (committed Gen/StatusData.v stays; the correspondence run "
+                                  "carries the tie): " + str(st.get("not_translatable", "?")))
+    except Exception as e:
+        ck.notes["tdata_status"] = "status unavailable: %r" % (e,)
     phase("proofs")
     rng = random.Random(ck.seed)
     thorough = ck.tier == "thorough"
@@ -1272,6 +1280,13 @@ def run(ck):
         "job was submitted.")
     ck.cov["traces_validated_against_impl"] = len(usable) + len(husable)
     ck.cov["input_distribution"] = hist
+    ck.assumptions.append(
+        "mutual exclusion of filelock.FileLock on one path (filelock package + OS advisory locks) is ASSUMED by "
+        "Status/Lock.v (a single holder cell); it is exercised, not proved: multi-process stress run and the "
+        "Timeout scenario on the real lock")
+    ck.assumptions.append(
+        "C12_roundtrip / C12_status_readable carry the hygiene hypothesis H12 (no ',' LF CR in any cell); its "
+        "complement is the known finding K3 (C12_roundtrip_refuted*, KNOWN_FINDINGS.txt)")
 
     def search():
         # a broken proof / correspondence without a concrete input so far:
@@ -1283,6 +1298,14 @@ def run(ck):
         if bad:
             c, o = obs2[bad[0]]
             return ("C12_ok false on the implementation's table: parsed=%s" % (json.dumps(o["parsed"])[:300],),
+                    strip_case(c))
+        hobs2, _ = history_polls(rng2, 300)
+        hobs2 = [(c, o) for c, o in hobs2 if o["error"] is None]
+        bad, _ = evaluate("C12_search_h", hobs2, "hcase_monitor", ty=HCASE_TY, lit=g_hcase)
+        if bad:
+            c, o = hobs2[bad[0]]
+            return ("after poll %d the status table is not one row per instance with its current fields / latest "
+                    "job id: status.csv=%r adapter submissions=%s" % (c["poll"], (o["text"] or "")[:600], o["subs"]),
                     strip_case(c))
         for c, o in obs2[:400]:
             if isinstance(o["parsed"], list) and o["table"] is not None and not any(py_signature(o)):
